@@ -314,3 +314,15 @@ def state_deps(chk, program, rule='STATE-DEPS'):
             chk.check(ok, rule, f"{qual}::depends-on::self.{a}", file=m.rel(), line=ln, func=qual,
                       expected='what is returned depends only on the configuration, the source map and the reassembly buffers', found=f"a guard reads self.{a}",
                       detail='' if ok else 'state kept for logging / bookkeeping now decides whether a message is returned: an ignored or rejected input changes later results')
+
+def no_decorators(chk, program, rule='FRESH-MSG'):
+    """generated decode/encode functions carry no decorator: a caching decorator (lru_cache) would hand the same message object to every caller"""
+    g = program.gen
+    n = 0
+    for name, s in g.funcs.items():
+        if name.startswith(('decode_pgn_', 'encode_pgn_', 'is_fast_pgn_', 'lookup_encode_')):
+            n += 1
+            if s.get('decorators', 0):
+                chk.violation(rule, f"pgns.{name}::decorated", file='nmea2000/pgns.py', line=s['line'], func=name, expected='no decorator on a generated function', found=f"{s['decorators']} decorator(s)",
+                              detail='a memoising decorator returns one shared message object for equal payloads: add_data / unit conversion of one decode show up in another decoder\'s result')
+    chk.ok(rule, 'pgns::undecorated', file='nmea2000/pgns.py', line=0, found=f"{n} generated functions scanned")
